@@ -422,6 +422,21 @@ theorem C14_modhash (build : List (Ep H) → List Nat) (hb : build [] = []) (ew 
     unfold ModHash.select
     simp only [hl', hlen, ↓reduceDIte, hc1, ne_eq, hclen, not_false_eq_true]
 
+/-- mod-hash, unlike the ring, follows the ORDER of its list: `Remove b` then `Add b` moves `b` to
+    the end, so the same set routes code 1 differently.  This is why a client that wants two
+    holders of the same set to agree must re-`Refresh` the mod-hash selector with the canonically
+    ordered list whenever the set changes (the endpoint manager orders by crc32 of the key; its
+    `addAliveEp` as found only `Add`s — finding `addAliveEp-modhash-order`, harness stream `mgr`).
+    The selector state is a value: nothing a caller does to the list it passed to `Refresh` can
+    change it afterwards (harness stream `alias` holds the Go code to that). -/
+theorem C14_modhash_order_dependent :
+    let e : Nat → Ep Nat := fun h => ⟨h, 0⟩
+    let build : List (Ep Nat) → List Nat := fun _ => []
+    (ModHash.run build (ModHash.new false) [.refresh [e 1, e 2, e 3]]).select 1 = .ep (e 2) ∧
+    (ModHash.run build (ModHash.new false) [.refresh [e 1, e 2, e 3], .remove (e 2), .add (e 2)]).select 1 = .ep (e 3) ∧
+    (ModHash.run build (ModHash.new false) [.refresh [e 1, e 2, e 3], .remove (e 2), .add (e 2), .refresh [e 1, e 2, e 3]]).select 1 = .ep (e 2) := by
+  decide
+
 /-! ## A call with a hash code in its context -/
 
 /-- the hash-type enumerations of `tars` (message.go) and `tars/selector` agree
